@@ -394,6 +394,30 @@ pub fn fork_push_family(big_hash_slots: bool) -> Vec<Shard> {
     shards
 }
 
+/// Templates far beyond standardness limits (520-byte elements, 10 000-byte scripts): still templates for the reference rules.
+pub fn long_templates() -> Shard {
+    let mut v = Vec::new();
+    for n in [517usize, 520, 521, 9_996, 9_997, 10_000, 10_001, 12_000, 70_000] {
+        let mut s = vec![0x6a];
+        s.extend(push_minimal(&vec![b'q'; n]));
+        v.push(s);
+        let mut s = push_minimal(&filler(n as u8, n));
+        s.push(0xac);
+        v.push(s);
+    }
+    for nops in [1usize, 495, 496, 497, 9_974, 9_975, 9_976, 9_977, 20_000] {
+        for tpl in [p2pkh(&h20(1)), p2sh(&h20(2)), p2pk(&key33(3)), op_return(b"x")] {
+            let mut s = vec![0x61; nops];
+            s.extend_from_slice(&tpl);
+            v.push(s);
+            let mut s = tpl.clone();
+            s.extend(std::iter::repeat(0xb0).take(nops));
+            v.push(s);
+        }
+    }
+    Shard { name: "long-templates".into(), scripts: v }
+}
+
 /// C14 length-extreme family.
 pub fn extremes() -> Shard {
     let mut v = Vec::new();
